@@ -106,6 +106,9 @@ def analyse(meta, run, gen_path):
 
     def tags_on_lines(l0, l1):
         ts = []
+        # comment lines directly above a clause belong to it
+        while l0 - 1 >= 1 and gen_lines[l0 - 2].strip().startswith(b"//"):
+            l0 -= 1
         for ln in range(l0, min(l1, l0 + 40) + 1):
             if 1 <= ln <= len(gen_lines):
                 for m in TAG.finditer(gen_lines[ln - 1].decode(errors="replace")):
